@@ -7,6 +7,7 @@ mod p_kmer;
 mod p_minfile;
 mod p_min;
 mod p_count;
+mod p_covfile;
 mod p_file;
 mod p_io;
 mod p_tables;
@@ -172,6 +173,7 @@ fn main() {
             let mut rep = Report::new("C08");
             let mut rng = util::Rng::new(seed);
             p_vec::run_c08_one(eff_tier, &mut rng, &model, &mut rep, corpus);
+            p_covfile::run_c08_files(eff_tier, &mut rng, &model, &mut rep, &corpus_lines, &work);
             rep
         }
         "C11" => {
